@@ -210,9 +210,9 @@ class Gen:
                 continue
             row = {}
             for c in cols:
-                if c == "u":
+                if c == "u" and "a" in row:
                     row[c] = (row["a"] * 2 + 1) % 3
-                elif c == "v":
+                elif c == "v" and "b" in row:
                     row[c] = -row["b"]
                 else:
                     row[c] = r.randint(-2, 3)
